@@ -61,8 +61,9 @@ def r_dataclass(mod, rep, R='R13.1'):
         hs = [s for s in cls.body if isinstance(s, ast.FunctionDef) and s.name == '__hash__']
         if hs:
             # a hand-written hash is fine iff it depends only on fields that equality compares
-            used = {n.attr for n in ast.walk(hs[0]) if isinstance(n, ast.Attribute) and isinstance(n.value, ast.Name) and n.value.id == 'self'}
-            other = {n.id for n in ast.walk(hs[0]) if isinstance(n, ast.Name)} - {'self', 'hash', 'tuple', 'str'}
+            body_nodes = [n for st_ in hs[0].body for n in ast.walk(st_)]      # (annotations of the signature are not part of the value)
+            used = {n.attr for n in body_nodes if isinstance(n, ast.Attribute) and isinstance(n.value, ast.Name) and n.value.id == 'self'}
+            other = {n.id for n in body_nodes if isinstance(n, ast.Name)} - {'self', 'hash', 'tuple', 'str'}
             fields = set(dataclass_fields(cls))
             rep.check(used <= fields and not other, R, w, name + ':explicit-hash', '%s.__hash__ depends only on fields compared by equality (%s)' % (name, sorted(used)),
                       '%s.__hash__ uses %s, equality compares %s' % (name, sorted(used | other), sorted(fields)))
@@ -94,7 +95,7 @@ def r_eq(mod, rep, R='R13.2'):
         same = bf.AND(*[bf.T(('cmp', '==', A(N('self'), f), A(N(o), f))) for f in fields])
         # a str is never an instance of the class: rows claiming both are not possible inputs
         cons = lambda sigma: not (sigma.get(is_str[1], False) and sigma.get(is_cls[1], False)) if is_str[0] == 'atom' and is_cls[0] == 'atom' else True
-        ok, detail = bf.matches(fn, bf.ITE(is_str, text_eq, bf.AND(is_cls, same)), cons)
+        ok, detail = bf.matches(fn, bf.ITE(is_str, text_eq, bf.AND(is_cls, same)), cons, inline_also=('items', 'values', 'keys'))
         rep.check(ok, R, w, name + ':eq:fields',
                   '%s equality: a str compares with %s, another class is unequal, the same class compares exactly the declared (hashed) fields %s (%s)'
                   % (name, 'the canonical text str(self)' if base == 'Category' else 'the parsed feature', fields, detail),
